@@ -145,7 +145,7 @@ func TestVerifC13(t *testing.T) {
 	p.WSync = 14
 	p.WFailover = 2
 	p.WLeave = 6
-	n := r.N(800, 25000)
+	n := r.N(600, 25000)
 	seen := func(w *gWorld, ev *gEvent) { r.Seen("group_states", w.stateSig(ev.After)) }
 	mk := func(w *gWorld) *c13Obs {
 		o := &c13Obs{r: r, model: map[c13Key]int64{}, removedBy: map[string]string{}}
